@@ -230,3 +230,31 @@ def _(root):
 def _(root):
     sub_all(root, ('rounding.py',), "if isinstance(j, float): _args[i] = round(j, tol) # don't round int\n    for i,j in kwds.items():\n      if isinstance(j, float): _kwds[i] = round(j, tol)\n    return argstype(_args), _kwds\n  return simple_round",
             "if isinstance(j, (float,)): _args[i] = round(j, tol) # don't round int\n    for i,j in kwds.items():\n      if isinstance(j, (float,)): _kwds[i] = round(j, tol)\n    return argstype(_args), _kwds\n  return simple_round")
+
+
+MEMO_HELPER = '''
+import weakref
+_signatures = weakref.WeakKeyDictionary() # func: (names, defaults)
+
+def _signature(func):
+    """memoised signature(func, markup=False, variadic=False, safe=True); always hands out a copy of the defaults"""
+    try:
+        spec = _signatures.get(func)
+    except TypeError:
+        return signature(func, markup=False, variadic=False, safe=True)
+    if spec is None:
+        spec = signature(func, markup=False, variadic=False, safe=True)
+        _signatures[func] = spec
+    names, defaults = spec
+    return names, (%s)
+
+
+from copy import copy
+def _keygen(func, ignored, *args, **kwds):'''
+
+
+@V('keygen-signature-memo-correct-copy')
+def _(root):
+    # a correct memoisation of the signature: the memo's dict is never handed out
+    sub_all(root, ('_inspect.py',), "from copy import copy\ndef _keygen(func, ignored, *args, **kwds):", MEMO_HELPER % "defaults.copy() if defaults is not None else None")
+    sub_all(root, ('_inspect.py',), "explicitly_named,user_kwds = signature(func,markup=False,variadic=False, safe=safe)", "explicitly_named,user_kwds = _signature(func)")
